@@ -20,7 +20,10 @@ import (
 	"math/rand"
 	"os"
 	"path/filepath"
+	"runtime/debug"
 	"sort"
+	"strings"
+	"time"
 
 	"github.com/pinealctx/neptune/bytex"
 
@@ -82,8 +85,8 @@ var table = map[string][]uint64{
 	"i16":  {0, 0xffff, 0x7fff, 0x8000, 0xff00},
 	"u32":  {0, 1, 0xffffffff, 0x80000000, 0x7fffffff, 65536, 0x01020304},
 	"i32":  {0, 0xffffffff, 0x7fffffff, 0x80000000, 0xffff0000},
-	"u64": {0, 1, math.MaxUint64, 1 << 63, math.MaxInt64, 1 << 32, 0x0102030405060708},
-	"i64": {0, math.MaxUint64, math.MaxInt64, 1 << 63, 0xffffffff00000000},
+	"u64":  {0, 1, math.MaxUint64, 1 << 63, math.MaxInt64, 1 << 32, 0x0102030405060708},
+	"i64":  {0, math.MaxUint64, math.MaxInt64, 1 << 63, 0xffffffff00000000},
 	"f64": {0, 1 << 63, 0x3ff0000000000000, 0x7ff8000000000001, 0x7ff0000000000001, 0xfff8000000000000,
 		0x7ff0000000000000, 0xfff0000000000000, 0x7fefffffffffffff, 1, 0x7ff4000000000000,
 		0x7fffffffffffffff},
@@ -164,7 +167,17 @@ type planLine struct {
 }
 
 // the uint32 limit behind a logged lim (lim is clamped to int32 for TLC; lengths never get there)
+var limSalt int
+
 func limArg(lim int) uint32 {
+	if lim >= math.MaxInt32 { // logged clamped; the real limit walks over 2^31-1, 2^31, 2^32-1
+		limSalt++
+		return []uint32{math.MaxInt32, 1 << 31, math.MaxUint32}[limSalt%3]
+	}
+	return limArgOld(lim)
+}
+
+func limArgOld(lim int) uint32 {
 	if lim >= math.MaxInt32 {
 		return math.MaxUint32
 	}
@@ -174,11 +187,33 @@ func limArg(lim int) uint32 {
 // ---------------------------------------------------------------------------------------------
 // a source that fragments its data
 
+// k > 0: at most k bytes per Read; 0: everything at once; < 0: irregular pieces, and
+//
+//	-2  io.EOF is reported together with the last bytes (n > 0, err)
+//	-3  now and then a Read returns (0, nil) ("nothing happened", never twice in a row)
+//	-4  the data ends with io.ErrUnexpectedEOF instead of io.EOF (a reader stacked on a framed one)
+//	-5  the data ends with a foreign error, reported together with the last bytes (n > 0, err)
+//	-6  one byte per Read, the data ends with a foreign error
+//
+// How the source ends is not compared (error identity is open): every kind is "no more bytes".
 type chunkSrc struct {
 	data []byte
 	pos  int
-	k    int // >0: at most k bytes per Read; 0: everything; <0: irregular
+	k    int
 	rng  *rand.Rand
+	zero bool
+}
+
+var errBoom = errors.New("source failed")
+
+func (c *chunkSrc) endErr() error {
+	switch c.k {
+	case -4:
+		return io.ErrUnexpectedEOF
+	case -5, -6:
+		return errBoom
+	}
+	return io.EOF
 }
 
 func (c *chunkSrc) Read(p []byte) (int, error) {
@@ -187,8 +222,13 @@ func (c *chunkSrc) Read(p []byte) (int, error) {
 	}
 	left := len(c.data) - c.pos
 	if left == 0 {
-		return 0, io.EOF
+		return 0, c.endErr()
 	}
+	if c.k == -3 && !c.zero && c.rng.Intn(3) == 0 {
+		c.zero = true
+		return 0, nil
+	}
+	c.zero = false
 	n := len(p)
 	if n > left {
 		n = left
@@ -196,13 +236,15 @@ func (c *chunkSrc) Read(p []byte) (int, error) {
 	switch {
 	case c.k > 0 && n > c.k:
 		n = c.k
+	case c.k == -6:
+		n = 1
 	case c.k < 0:
 		n = c.rng.Intn(n) + 1
 	}
 	copy(p, c.data[c.pos:c.pos+n])
 	c.pos += n
-	if c.k == -2 && c.pos == len(c.data) {
-		return n, io.EOF // io.Reader may report EOF together with the last bytes
+	if (c.k == -2 || c.k == -5) && c.pos == len(c.data) {
+		return n, c.endErr() // io.Reader may report the end together with the last bytes
 	}
 	return n, nil
 }
@@ -299,13 +341,68 @@ func b2u(b bool) uint64 {
 	return 0
 }
 
-func guard(f func() ans) (r ans) {
+// Every call into the code under test runs under a watchdog: a call that does not come back is an
+// observation (pan = 2, which the trace spec never accepts), not a hung harness.  After the first
+// one nothing more is called (the stuck goroutine may still be inside the object).
+var (
+	watchdog = 20 * time.Second
+	halted   bool
+)
+
+func watch(f func()) (stuck bool) {
+	if halted {
+		return true
+	}
+	done := make(chan struct{})
+	go func() {
+		defer close(done)
+		f()
+	}()
+	select {
+	case <-done:
+		return false
+	default:
+	}
+	t := time.NewTimer(watchdog)
+	defer t.Stop()
+	select {
+	case <-done:
+		return false
+	case <-t.C:
+		halted = true
+		return true
+	}
+}
+
+func guard(f func() ans) ans {
+	res := new(ans)
+	if watch(func() {
+		defer func() {
+			if p := recover(); p != nil {
+				*res = ans{ok: false, pan: 1, e: fmt.Sprintf("panic: %v", p)}
+			}
+		}()
+		*res = f()
+	}) {
+		return ans{ok: false, pan: 2, e: "stuck"}
+	}
+	return *res
+}
+
+// protect runs one history; a panic raised inside neptune outside the guarded calls (a
+// constructor, Len, Bytes, Reset) becomes an event of its own kind, which the trace spec rejects.
+func protect(k *sink, body func()) {
 	defer func() {
 		if p := recover(); p != nil {
-			r = ans{ok: false, pan: 1, e: fmt.Sprintf("panic: %v", p)}
+			if !strings.Contains(string(debug.Stack()), "github.com/pinealctx/neptune/") {
+				panic(p)
+			}
+			k.flush()
+			k.w.Emit(tr.E{"ev": "panic", "msg": fmt.Sprintf("%v", p)})
 		}
 	}()
-	return f()
+	body()
+	k.flush()
 }
 
 // one typed read on the buffer reader
@@ -510,15 +607,24 @@ type sess struct {
 	phase string // "w" | "r"
 	midrw bool
 	self  bool
-	c     int // bytes given to the readers at the last open
+	c     int    // bytes given to the readers at the last open (+ what was written behind them since)
+	wtot  int    // bytes written in this lifetime
+	priv  []byte // private copy of image: the readers share `image` itself and must not change it
 }
 
+// every constructor, sizes from nothing to more than a history writes
 func newBuffer(rng *rand.Rand) *bytex.BufferX {
-	switch rng.Intn(4) {
+	switch rng.Intn(8) {
 	case 0:
-		return bytex.NewSizedBufferX(rng.Intn(40)) // forces growth
+		return bytex.NewSizedBufferX(rng.Intn(40)) // forces growth and data moves
 	case 1:
+		return bytex.NewSizedBufferX([]int{0, 1, 2, 4096}[rng.Intn(4)])
+	case 2:
 		return bytex.NewReadableBufferX(make([]byte, 0))
+	case 3:
+		return bytex.NewReadableBufferX(nil)
+	case 4:
+		return bytex.NewReadableBufferX(make([]byte, 0, rng.Intn(64)))
 	}
 	return bytex.NewBufferX()
 }
@@ -548,19 +654,46 @@ func (s *sess) total() int {
 	return s.W.Len()
 }
 
+// doWrite: one typed write to the buffer being written - or, while everything is being read back,
+// to the buffer being read (the item queues behind the unread ones; the stream readers, which were
+// given the old bytes, are dropped).
 func (s *sess) doWrite(v val, lim int) {
-	before := s.W.Len()
+	t := s.target()
+	before := t.Len()
 	in := append([]byte{}, v.b...)
-	ok, pan, msg := write(s.W, v, lim, in)
-	after := s.W.Len()
+	var ok bool
+	var pan int
+	var msg string
+	if watch(func() { ok, pan, msg = write(t, v, lim, in) }) {
+		ok, pan, msg = false, 2, "stuck"
+	}
+	after := t.Len()
 	n := after - before
+	inmut := func() bool { return !bytes.Equal(in, v.b) }
+	if !s.k.lazy {
+		// judged now; then the caller reuses its slice, which must not reach the buffer
+		now := inmut()
+		inmut = func() bool { return now }
+		for i := range in {
+			in[i] ^= 0xa5
+		}
+	}
 	s.k.emit(func() tr.E {
 		return tr.E{"ev": "call",
 			"a": tr.E{"op": "w", "t": v.t, "tok": v.tok(), "n": n, "lim": lim},
-			"r": tr.E{"ok": ok, "len": after, "pan": pan, "e": msg, "inmut": !bytes.Equal(in, v.b)}}
+			"r": tr.E{"ok": ok, "len": after, "pan": pan, "e": msg, "inmut": inmut()}}
 	})
 	if ok {
-		s.items = append(s.items, written{v: v, start: before, n: n})
+		s.items = append(s.items, written{v: v, start: s.wtot, n: n})
+		s.wtot += n
+		if s.phase == "r" {
+			s.c += n
+		}
+	}
+	if s.phase == "r" {
+		s.midrw = true
+		s.xs = nil
+		s.srcs = nil
 	}
 }
 
@@ -594,7 +727,7 @@ func (s *sess) doRewrite(kind string, pos int, p []byte, v uint32) {
 	}
 	pan, msg := 0, ""
 	in := append([]byte{}, p...)
-	func() {
+	if watch(func() {
 		defer func() {
 			if x := recover(); x != nil {
 				pan, msg = 1, fmt.Sprintf("panic: %v", x)
@@ -605,13 +738,23 @@ func (s *sess) doRewrite(kind string, pos int, p []byte, v uint32) {
 		} else {
 			t.ReWrite(pos, in)
 		}
-	}()
+	}) {
+		pan, msg = 2, "stuck"
+	}
 	after := append([]byte{}, t.Bytes()...)
+	inmut := func() bool { return !bytes.Equal(in, p) }
+	if !s.k.lazy {
+		now := inmut()
+		inmut = func() bool { return now }
+		for i := range in {
+			in[i] ^= 0xa5
+		}
+	}
 	s.k.emit(func() tr.E {
 		return tr.E{"ev": "call",
 			"a": tr.E{"op": "rw", "kind": kind, "pos": pos, "plen": len(p), "p": tr.Ints(p), "tok": tokv},
 			"r": tr.E{"before": tr.Ints(before), "after": tr.Ints(after), "pan": pan, "e": msg,
-				"inmut": !bytes.Equal(in, p)}}
+				"inmut": inmut()}}
 	})
 	if s.phase == "r" {
 		s.midrw = true
@@ -645,6 +788,9 @@ func (s *sess) doOpen(c int, ks []int, self bool) {
 	if s.image == nil {
 		s.image = append([]byte{}, s.W.Bytes()...)
 	}
+	if s.priv == nil {
+		s.priv = append([]byte{}, s.image...)
+	}
 	if c > len(s.image) {
 		c = len(s.image)
 	}
@@ -656,12 +802,13 @@ func (s *sess) doOpen(c int, ks []int, self bool) {
 	if self {
 		s.b = s.W
 	} else {
-		s.b = bytex.NewReadableBufferX(append([]byte{}, s.image[:c]...))
+		// all decoders of one lifetime decode from the same bytes (not from copies)
+		s.b = bytex.NewReadableBufferX(s.image[:c:c])
 	}
 	s.xs = s.xs[:0]
 	s.srcs = s.srcs[:0]
 	for _, k := range ks {
-		src := &chunkSrc{data: append([]byte{}, s.image[:c]...), k: k, rng: rand.New(rand.NewSource(s.rng.Int63()))}
+		src := &chunkSrc{data: s.image[:c:c], k: k, rng: rand.New(rand.NewSource(s.rng.Int63()))}
 		s.xs = append(s.xs, bytex.NewReaderX(src))
 		s.srcs = append(s.srcs, src)
 	}
@@ -729,6 +876,7 @@ func (s *sess) doRead(a act) bool {
 			xa = append(xa, readX(x, a))
 		}
 	}
+	srcmut := !s.midrw && !bytes.Equal(s.image, s.priv)
 	s.k.emit(func() tr.E {
 		xr := make([]tr.E, 0, len(xa))
 		for _, x := range xa {
@@ -736,7 +884,7 @@ func (s *sess) doRead(a act) bool {
 		}
 		return tr.E{"ev": "call",
 			"a": tr.E{"op": "rd", "t": a.T, "lim": a.Lim, "n": a.N, "via": a.Via},
-			"r": tr.E{"b": ansE(rb, true), "x": xr}}
+			"r": tr.E{"b": ansE(rb, true), "x": xr, "srcmut": srcmut}}
 	})
 	return rb.ok
 }
@@ -800,7 +948,7 @@ func runPlan(k *sink, rng *rand.Rand, name string, p []act, W *bytex.BufferX, ho
 	for i, a := range p[1:] {
 		switch a.Op {
 		case "w":
-			if s.phase != "w" {
+			if s.phase != "w" && s.c != s.wtot { // behind a truncated open nothing is written
 				return
 			}
 			s.doWrite(planVal(a), a.Lim)
@@ -832,7 +980,7 @@ func runPlan(k *sink, rng *rand.Rand, name string, p []act, W *bytex.BufferX, ho
 // ---------------------------------------------------------------------------------------------
 // seeded histories
 
-var chunkMenu = []int{1, 1, 2, 3, 4, 5, 7, 8, 9, 16, 0, 0, -1, -1, -2}
+var chunkMenu = []int{1, 1, 2, 3, 4, 5, 7, 8, 9, 16, 0, 0, -1, -1, -2, -3, -4, -5, -6}
 
 func randKs(rng *rand.Rand, n int) []int {
 	ks := make([]int, 0, n)
@@ -907,11 +1055,29 @@ func extraRead(rng *rand.Rand) act {
 	return a
 }
 
-// readBack reads the written sequence until the first refusal (+ one read after it).
-func (s *sess) readBack(overLimit bool, rwAt int) {
-	for i := range s.items {
+// after the first refusal only "no panic" is left of the property: also the reads whose argument
+// the readers are free to refuse (n <= 0)
+func (s *sess) afterRefusal() {
+	a := extraRead(s.rng)
+	if s.rng.Intn(3) == 0 {
+		a = act{Op: "rd", T: "raw", Lim: -1, N: []int{0, -1, -7, math.MinInt32}[s.rng.Intn(4)],
+			Via: []string{"n", "z"}[s.rng.Intn(2)]}
+	}
+	s.doRead(a)
+}
+
+// readBack reads the written sequence until the first refusal (+ one read after it).  With
+// `late`, more items are written behind the unread ones while the sequence is being read back.
+func (s *sess) readBack(overLimit bool, rwAt int, late bool) {
+	for i := 0; i < len(s.items); i++ {
 		if i == rwAt && !s.midrw {
 			s.randomRewrite(i)
+		}
+		if late && i > 0 && s.c == s.wtot && len(s.items) < 24 && s.rng.Intn(3) == 0 {
+			for k := s.rng.Intn(3) + 1; k > 0; k-- {
+				v, lim := randItem(s.rng, false)
+				s.doWrite(v, lim)
+			}
 		}
 		it := s.items[i]
 		if it.dirty {
@@ -920,13 +1086,13 @@ func (s *sess) readBack(overLimit bool, rwAt int) {
 			return
 		}
 		if !s.doRead(readFor(s.rng, it, overLimit)) {
-			s.doRead(extraRead(s.rng))
+			s.afterRefusal()
 			return
 		}
 	}
-	s.doRead(extraRead(s.rng)) // past the end: the buffer must be empty for every reader
-	if s.rng.Intn(3) == 0 {
-		s.doRead(extraRead(s.rng))
+	// past the end: the buffer must be empty for every reader
+	if !s.doRead(extraRead(s.rng)) && s.rng.Intn(3) == 0 {
+		s.afterRefusal()
 	}
 }
 
@@ -938,7 +1104,7 @@ func (s *sess) randomRewrite(from int) {
 	if from < len(s.items) {
 		base = s.items[from].start
 	} else {
-		base = s.total()
+		base = s.wtot
 	}
 	var cands []int
 	for i := from; i < len(s.items); i++ {
@@ -982,6 +1148,10 @@ func randItem(rng *rand.Rand, big bool) (val, int) {
 func emptied(rng *rand.Rand, W *bytex.BufferX) string {
 	if W.Len() > 0 || rng.Intn(2) == 0 {
 		W.Reset()
+		if rng.Intn(4) == 0 {
+			W.Reset()
+			return "Reset twice"
+		}
 		return "Reset"
 	}
 	return "drained"
@@ -991,21 +1161,34 @@ func emptied(rng *rand.Rand, W *bytex.BufferX) string {
 // renders its events only when it is over (see ans).
 func runHistory(w *tr.W, rng *rand.Rand, i int, maxItems int) {
 	k := &sink{w: w, lazy: i%2 == 1}
-	W := newBuffer(rng)
-	how := "new"
-	for life, nlife := 0, 1+rng.Intn(3); life < nlife; life++ {
-		m := maxItems
-		if life > 0 {
-			m = maxItems/2 + 1
+	protect(k, func() {
+		W := newBuffer(rng)
+		how := "new"
+		for life, nlife := 0, 1+rng.Intn(3); life < nlife && !halted; life++ {
+			m := maxItems
+			if life > 0 {
+				m = maxItems/2 + 1
+			}
+			lifetime(start(k, rng, "hist", W, how), rng, i, m, life)
+			how = emptied(rng, W)
 		}
-		lifetime(start(k, rng, "hist", W, how), rng, i, m, life)
-		how = emptied(rng, W)
-	}
-	k.flush()
+	})
 }
 
 func lifetime(s *sess, rng *rand.Rand, i int, maxItems int, life int) {
 	n := rng.Intn(maxItems) + 1
+	switch rng.Intn(12) {
+	case 0: // nothing is written: every read of the fresh / recycled buffer is refused
+		s.doOpen(0, randKs(rng, 2), true)
+		s.readBack(false, -1, false)
+		return
+	case 1: // given up after the writes (the caller resets the buffer)
+		for j := 0; j < n; j++ {
+			v, lim := randItem(rng, false)
+			s.doWrite(v, lim)
+		}
+		return
+	}
 	big := i%9 == 0
 	nrw := 0
 	if rng.Intn(2) == 0 {
@@ -1053,18 +1236,18 @@ func lifetime(s *sess, rng *rand.Rand, i int, maxItems int, life int) {
 	}
 	// the full round trip on copies with several chunkings (limits sometimes refuse)
 	s.doOpen(total, randKs(rng, 3), false)
-	s.readBack(rng.Intn(3) == 0, -1)
+	s.readBack(rng.Intn(3) == 0, -1, false)
 	for _, c := range cs {
 		s.doOpen(c, randKs(rng, 2), false)
-		s.readBack(false, -1)
+		s.readBack(false, -1, false)
 	}
 	// finally the buffer that was written to, itself; sometimes rewritten while being read
 	rwAt := -1
 	if rng.Intn(3) == 0 && len(s.items) > 1 {
 		rwAt = rng.Intn(len(s.items))
 	}
-	s.doOpen(total, []int{1, 0, -1}, true)
-	s.readBack(false, rwAt)
+	s.doOpen(total, randKs(rng, 3), true)
+	s.readBack(false, rwAt, rng.Intn(2) == 0)
 }
 
 // arbitrary bytes as decoder input
@@ -1119,8 +1302,10 @@ func le32(b []byte) uint32 {
 func runArb(w *tr.W, rng *rand.Rand, i int) {
 	data := arbBytes(rng)
 	k := &sink{w: w, lazy: i%2 == 1}
-	defer k.flush()
-	s := startArb(k, rng, "arb", data)
+	protect(k, func() { arbBody(startArb(k, rng, "arb", data), rng, data) })
+}
+
+func arbBody(s *sess, rng *rand.Rand, data []byte) {
 	for round := 0; round < 3; round++ {
 		c := len(data)
 		if round > 0 && c > 0 {
@@ -1136,7 +1321,7 @@ func runArb(w *tr.W, rng *rand.Rand, i int) {
 				}
 			}
 			if !s.doRead(a) {
-				s.doRead(extraRead(rng)) // after the first refusal: still no panic
+				s.afterRefusal() // still no panic
 				break
 			}
 		}
@@ -1159,25 +1344,26 @@ func main() {
 		files, _ := filepath.Glob(filepath.Join(*plans, "*.ndjson"))
 		sort.Strings(files)
 		// three plans share one BufferX (three lifetimes of one history)
-		for g := 0; g < len(files); g += 3 {
+		for g := 0; g < len(files) && !halted; g += 3 {
 			k := &sink{w: w, lazy: (g/3)%2 == 1}
-			W, how := newBuffer(rng), "new"
-			end := g + 3
-			if end > len(files) {
-				end = len(files)
-			}
-			for _, f := range files[g:end] {
-				runPlan(k, rng, filepath.Base(f), readPlan(f), W, how)
-				how = emptied(rng, W)
-				nplans++
-			}
-			k.flush()
+			protect(k, func() {
+				W, how := newBuffer(rng), "new"
+				end := g + 3
+				if end > len(files) {
+					end = len(files)
+				}
+				for _, f := range files[g:end] {
+					runPlan(k, rng, filepath.Base(f), readPlan(f), W, how)
+					how = emptied(rng, W)
+					nplans++
+				}
+			})
 		}
 	}
-	for i := 0; i < *nhist; i++ {
+	for i := 0; i < *nhist && !halted; i++ {
 		runHistory(w, rng, i, *maxItems)
 	}
-	for i := 0; i < *narb; i++ {
+	for i := 0; i < *narb && !halted; i++ {
 		runArb(w, rng, i)
 	}
 	w.Close()
